@@ -194,6 +194,7 @@ class LinComb:
     
     # self<other, so other-self>0, so other-self-1>=0
     def __lt__(self, other):
+        if not isinstance(other, (int, LinComb)): return NotImplemented
         return (other-self-1).check_positive()
     
     def assert_lt(self, other, err=None):
@@ -207,6 +208,7 @@ class LinComb:
         
     # self<=other, so other-self>=0
     def __le__(self, other):
+        if not isinstance(other, (int, LinComb)): return NotImplemented
         return (other-self).check_positive()
 
     def assert_le(self, other, err=None):
@@ -244,6 +246,7 @@ class LinComb:
         
     # self>other, so self-other>0, so self-other-1>=0
     def __gt__(self, other):
+        if not isinstance(other, (int, LinComb)): return NotImplemented
         return (self-other-1).check_positive()
 
     def assert_gt(self, other, err=None):
@@ -257,6 +260,7 @@ class LinComb:
 
     # self>=other, so self-other>=0
     def __ge__(self, other):
+        if not isinstance(other, (int, LinComb)): return NotImplemented
         return (self-other).check_positive()
 
     def assert_ge(self, other, err=None):
